@@ -178,6 +178,21 @@ func (d Date) AddDateSpan(val DateSpan) Date {
 	return datetime.AddDateSpan(val).Date()
 }
 
+// Adds the given date span to the date, returns an error
+// when the result is outside of the representable year range.
+func (d Date) AddDateSpanErr(val DateSpan) (Date, Value) {
+	datetime := d.ToDateTimeValue()
+	result := datetime.AddDateSpan(val)
+	return MakeValidatedDate(result.Year(), result.Month(), result.Day())
+}
+
+// Subtracts the given date span from the date, returns an error
+// when the result is outside of the representable year range.
+func (d Date) SubtractDateSpanErr(val DateSpan) (Date, Value) {
+	result := d.ToDateTime().SubtractDateSpan(val)
+	return MakeValidatedDate(result.Year(), result.Month(), result.Day())
+}
+
 func (d Date) AddTimeSpan(val TimeSpan) *DateTime {
 	datetime := d.ToDateTimeValue()
 	return datetime.AddTimeSpan(val)
@@ -191,7 +206,11 @@ func (d Date) AddDateTimeSpan(val *DateTimeSpan) *DateTime {
 func (d Date) Subtract(val Value) (Value, Value) {
 	switch val.flag {
 	case DATE_SPAN_FLAG:
-		return d.SubtractDateSpan(val.AsInlineDateSpan()).ToValue(), Undefined
+		result, err := d.SubtractDateSpanErr(val.AsInlineDateSpan())
+		if !err.IsUndefined() {
+			return Undefined, err
+		}
+		return result.ToValue(), Undefined
 	case DATE_FLAG:
 		return d.DiffDate(val.AsDate()).ToValue(), Undefined
 	case REFERENCE_FLAG:
@@ -201,7 +220,11 @@ func (d Date) Subtract(val Value) (Value, Value) {
 
 	switch v := val.AsReference().(type) {
 	case DateSpan:
-		return d.SubtractDateSpan(v).ToValue(), Undefined
+		result, err := d.SubtractDateSpanErr(v)
+		if !err.IsUndefined() {
+			return Undefined, err
+		}
+		return result.ToValue(), Undefined
 	default:
 		return Undefined, Ref(NewArgumentTypeError("other", val.Class().Inspect(), DateClass.Inspect()))
 	}
@@ -237,7 +260,11 @@ func (d Date) Diff(val Value) (Value, Value) {
 
 	switch v := val.AsReference().(type) {
 	case DateSpan:
-		return d.SubtractDateSpan(v).ToValue(), Undefined
+		result, err := d.SubtractDateSpanErr(v)
+		if !err.IsUndefined() {
+			return Undefined, err
+		}
+		return result.ToValue(), Undefined
 	case *DateTimeSpan:
 		return Ref(d.SubtractDateTimeSpan(v)), Undefined
 	default:
